@@ -426,16 +426,16 @@ def pass_sequences(ctx, rng, kind):
     singles = [[p] for p in range(1, 7)]
     pairs = [[p, q] for p in range(1, 7) for q in range(1, 7) if p != q]
     if ctx.tier == 'quick':
-        pairs = rng.sample(pairs, 3)
+        pairs = rng.sample(pairs, 2)
     elif kind not in ('synth', 'logic', 'directed'):
-        pairs = rng.sample(pairs, 14)
+        pairs = rng.sample(pairs, 10)
     return singles + pairs
 
 
 def run(ctx):
     quick = ctx.tier == 'quick'
-    plan = ([('directed', 24), ('generic', 14), ('synth', 8), ('logic', 10), ('raw', 10)] if quick else
-            [('directed', 120), ('generic', 260), ('synth', 120), ('logic', 160), ('raw', 160)])
+    plan = ([('directed', 18), ('generic', 9), ('synth', 5), ('logic', 7), ('raw', 7)] if quick else
+            [('directed', 60), ('generic', 90), ('synth', 40), ('logic', 60), ('raw', 60)])
     cases = []
     exprs = []
     extra_exprs = []       # spec_case of real results (sampled)
@@ -619,7 +619,13 @@ def run(ctx):
                     psn, flags[2], r['sane'], r['sane_err']), rep)
             # ---- tie: census
             rc, mc = census(rw, rn), census(mw, mn)
-            if rc != mc:
+            if 6 in ps[:-1]:
+                # which tree leaf feeds which reader follows set order in the real pass, so after a
+                # later rewrite (e.g. xor reads each argument twice) per-wire fan-out legitimately differs
+                rc_cmp, mc_cmp = dict(rc, fanout=None), dict(mc, fanout=None)
+            else:
+                rc_cmp, mc_cmp = rc, mc
+            if rc_cmp != mc_cmp:
                 ctx.model_mismatch('census differs after %s: real %s model %s' % (psn, rc, mc), rep)
             for o, k in rc['ops'].items():
                 ctx.count('ops_after', o, k)
